@@ -255,7 +255,7 @@ def to_indices(sequence, index_of):
     return [[tuple(index_of[id(d)] for d in group) for group in stage] for stage in sequence]
 
 
-def judge_structure(case, rep, disciplines=None, model=None):
+def judge_structure(case, rep, disciplines=None, model=None, hist_rng=None):
     """Build CouplingStructure on the real code and judge sequence + coupling sets. Returns (model, ok)."""
     from gemseo.core.coupling_structure import CouplingStructure
 
@@ -334,7 +334,185 @@ def judge_structure(case, rep, disciplines=None, model=None):
             sorted(a), {"allowed": sorted(model.all_allowed)})
     elif model.self_only & a:
         rep.count("all_couplings_with_self_only_variable")
+    # results must not depend on the query history: (1) a new structure queried in random order before its
+    # properties are read, (2) the structure above queried again after its properties were read
+    if hist_rng is not None and "history" not in case:
+        case["history"] = gen_history(hist_rng, case)
+    if "history" in case:
+        rep.count("history_structures")
+        try:
+            cs2 = CouplingStructure(disciplines)
+        except Exception:
+            cs2 = None
+        if cs2 is not None:
+            ok = judge_history(cs2, case["history"], disciplines, model, case, rep, "query-history") and ok
+        ok = judge_history(cs, case["history"], disciplines, model, case, rep, "query-history-after-properties") and ok
     return model, ok
+
+
+# --------------------------------------------------------------------------- query histories
+PROPS = ("strongly", "weakly", "strong", "weak", "all")
+
+
+def gen_history(rng, case):
+    """A random sequence of public queries (method variants with every argument combination, several times,
+    in random order) followed by every property in random order."""
+    n = len(case["discs"])
+    outs = [o for d in case["discs"] for o in d["outs"]]
+    ops = []
+    for _ in range(int(rng.integers(5, 13))):
+        r = int(rng.integers(9))
+        if r < 2:
+            ops.append(["get_strongly", bool(rng.integers(2)), bool(rng.integers(2))])
+        elif r == 2:
+            ops.append(["self", int(rng.integers(n))])
+        elif r == 3:
+            ops.append(["in", int(rng.integers(n)), bool(rng.integers(2))])
+        elif r == 4:
+            ops.append(["out", int(rng.integers(n)), bool(rng.integers(2))])
+        elif r == 5 and outs:
+            ops.append(["find", outs[int(rng.integers(len(outs)))]])
+        else:
+            ops.append([PROPS[int(rng.integers(5))]])
+    ops += [[PROPS[int(i)]] for i in rng.permutation(5)]
+    return ops
+
+
+FIXED_HISTORY = ([[p] for p in PROPS] + [["get_strongly", a, b] for a in (True, False) for b in (True, False)]
+                 + [[p] for p in reversed(PROPS)])
+
+
+def _query(cs, op, disciplines):
+    k = op[0]
+    if k == "strongly":
+        return cs.strongly_coupled_disciplines
+    if k == "weakly":
+        return cs.weakly_coupled_disciplines
+    if k == "strong":
+        return cs.strong_couplings
+    if k == "weak":
+        return cs.weak_couplings
+    if k == "all":
+        return cs.all_couplings
+    if k == "get_strongly":
+        return cs.get_strongly_coupled_disciplines(add_self_coupled=op[1], by_group=op[2])
+    if k == "self":
+        return cs.is_self_coupled(disciplines[op[1]])
+    if k == "in":
+        return cs.get_input_couplings(disciplines[op[1]], strong=op[2])
+    if k == "out":
+        return cs.get_output_couplings(disciplines[op[1]], strong=op[2])
+    if k == "find":
+        return cs.find_discipline(op[1])
+    raise ValueError(k)
+
+
+def _judge_query(op, res, model, index_of):
+    """None when the result of one query is the one implied by the graph, else (what, clause, observed, expected)."""
+    k = op[0]
+    if k in ("strongly", "weakly") or (k == "get_strongly" and not op[2]):
+        got = sorted(index_of[id(d)] for d in res)
+        if k == "weakly":
+            exp, what = sorted(model.acyclic), "weakly-coupled-disciplines"
+        elif k == "strongly" or op[1]:
+            exp, what = sorted(model.cyclic), "strongly-coupled-disciplines"
+        else:
+            exp, what = sorted(u for u in range(model.n) if len(model.group_of[u]) > 1), "strongly-coupled-disciplines"
+        return None if got == exp else (what, f"{k}{op[1:]} = the disciplines implied by the graph", got, exp)
+    if k == "get_strongly":
+        got = sorted(sorted(index_of[id(d)] for d in g) for g in res)
+        exp = [sorted(g) for g in model.sccs if len(g) > 1]
+        if op[1]:
+            exp += [[u] for u in model.loops if len(model.group_of[u]) == 1]
+        exp = sorted(exp)
+        return None if got == exp else ("strongly-coupled-groups", f"{k}{op[1:]} = the cycle groups", got, exp)
+    if k == "self":
+        exp = op[1] in model.loops
+        return None if bool(res) == exp else ("is-self-coupled", "is_self_coupled = reads one of its outputs", bool(res), exp)
+    if k in ("in", "out"):
+        names = model.ins[op[1]] if k == "in" else model.outs[op[1]]
+        got = list(res)
+        if len(set(got)) != len(got):
+            return (f"{k}put-couplings", "no duplicate", got, None)
+        if op[2]:
+            exp = names & model.strong
+            return None if set(got) == exp else (f"{k}put-couplings:strong", f"get_{k}put_couplings(strong=True)",
+                                                 sorted(got), sorted(exp))
+        lo, hi = names & model.all_required, names & model.all_allowed
+        return None if lo <= set(got) <= hi else (f"{k}put-couplings:all", f"get_{k}put_couplings(strong=False)",
+                                                  sorted(got), {"required": sorted(lo), "allowed": sorted(hi)})
+    if k == "find":
+        got = index_of.get(id(res))
+        exp = model.producer[op[1]]
+        return None if got == exp else ("find-discipline", "find_discipline = the producer", got, exp)
+    got = list(res)
+    if len(set(got)) != len(got):
+        return ("duplicates", "coupling lists have no duplicate", got, None)
+    g = set(got)
+    if k == "strong":
+        if g != model.strong:
+            return ("strong:" + ("missing" if model.strong - g else "extra"),
+                    "strong couplings = variables produced and consumed inside one cycle group", sorted(g), sorted(model.strong))
+    elif k == "weak":
+        if not model.weak_required <= g:
+            return ("weak:missing", "weak couplings contain every variable produced outside cycles and read elsewhere",
+                    sorted(g), {"required": sorted(model.weak_required)})
+        if not g <= model.weak_allowed:
+            return ("weak:extra", "weak couplings contain no strong coupling and nothing outside the acyclic part",
+                    sorted(g), {"allowed": sorted(model.weak_allowed)})
+    elif k == "all":
+        if not model.all_required <= g:
+            return ("all:missing", "all couplings contain every variable produced by one discipline and read by another",
+                    sorted(g), {"required": sorted(model.all_required)})
+        if not g <= model.all_allowed:
+            return ("all:extra", "all couplings contain only variables that are both produced and read",
+                    sorted(g), {"allowed": sorted(model.all_allowed)})
+    return None
+
+
+def judge_history(cs, history, disciplines, model, case, rep, where):
+    """Run the queries of ``history`` on ``cs`` in order; every result must be the one implied by the graph,
+    whatever was asked before (results must not depend on the query history)."""
+    feat = features(model, case)
+    index_of = {id(d): i for i, d in enumerate(disciplines)}
+    ok = True
+    for step, op in enumerate(history):
+        try:
+            res = _query(cs, op, disciplines)
+            fail = _judge_query(op, res, model, index_of)
+        except Exception as e:
+            rep.violation(f"C08:couplings:exception:{type(e).__name__}:{where}:{feat}", "coupling queries return", case,
+                          observed={"query": op, "step": step, "error": f"{type(e).__name__}: {e}"[:300]}, expected=None)
+            return False
+        rep.count("history_queries_judged")
+        if fail is not None:
+            ok = False
+            what, clause, observed, expected = fail
+            rep.violation(f"C08:couplings:{what}:{where}:{feat}", clause + f" [{where}]", case,
+                          observed={"query": op, "step": step, "earlier_queries": history[:step], "result": observed},
+                          expected=expected)
+            break
+    return ok
+
+
+def judge_process_structures(proc, disciplines, model, case, rep, when):
+    """The coupling structure carried by an MDAChain and by its inner MDAs, judged like a fresh one."""
+    cs = getattr(proc, "coupling_structure", None)
+    if cs is None:
+        return
+    rep.count("process_coupling_structures_judged")
+    judge_history(cs, FIXED_HISTORY, disciplines, model, case, rep, f"MDAChain-after-{when}")
+    pos = {id(d): i for i, d in enumerate(disciplines)}
+    for mda in getattr(proc, "inner_mdas", []):
+        sub = [d for d in mda.disciplines]
+        if not all(id(d) in pos for d in sub):
+            continue
+        sub_case = dict(case, discs=[case["discs"][pos[id(d)]] for d in sub], sub_structure_of=type(mda).__name__)
+        sub_model = G.Model([d["ins"] for d in sub_case["discs"]], [d["outs"] for d in sub_case["discs"]])
+        rep.count("inner_mda_coupling_structures_judged")
+        judge_history(mda.coupling_structure, FIXED_HISTORY, sub, sub_model, sub_case, rep,
+                      f"{type(mda).__name__}-after-{when}")
+
 
 
 def judge_dependency_graph(case, rep, disciplines, model):
@@ -404,6 +582,7 @@ def judge_execution(case, rep, model=None):
             if variant == "mdachain-initdefaults":
                 settings["initialize_defaults"] = True
             proc = MDAChain(disciplines, **settings)
+        judge_process_structures(proc, disciplines, model, case, rep, "construction")
         given = {k: v.copy() for k, v in x.items()}
         if case.get("guess"):
             # initial values for the coupling variables the process accepts as inputs: the result must not change
@@ -413,6 +592,7 @@ def judge_execution(case, rep, model=None):
                     given[k] = np.round(grng.uniform(-1, 1, ref[k].shape), 3)
                     rep.count("exec_coupling_guess_passed")
         out = proc.execute(given)
+        judge_process_structures(proc, disciplines, model, case, rep, "execution")
         if variant.startswith("mdachain"):
             rep.count("inner_mdas_created", len(proc.inner_mdas))
             n_expected = len([g for g in model.sccs if len(g) > 1 or next(iter(g)) in model.loops])
